@@ -94,6 +94,10 @@ def uniqueOK (c : Cfg) (m : Abs) : Bool :=
   c.indexes.all (fun i => !i.unique ||
     m.all (fun a => m.all (fun b => a.id = b.id || i.sel.get a ≠ i.sel.get b)))
 
+def Op.isRebuild : Op → Bool
+  | .rebuild _ => true
+  | _ => false
+
 def Op.obj? : Op → Option Obj
   | .create o _ | .put o _ | .replace o _ => some o
   | _ => none
